@@ -294,7 +294,12 @@ func (t *ImmutableTree) IterateRangeInclusive(start, end []byte, ascending bool,
 	}
 	return t.root.traverseInRange(t, start, end, ascending, true, false, func(node *Node) bool {
 		if node.subtreeHeight == 0 {
-			return fn(node.key, node.value, node.nodeKey.version)
+			// leaves of a working tree that are not saved yet have no node key
+			version := t.nextVersion()
+			if node.nodeKey != nil {
+				version = node.nodeKey.version
+			}
+			return fn(node.key, node.value, version)
 		}
 		return false
 	})
